@@ -29,10 +29,13 @@ ASSUMPTIONS = ["as C01", "uniqueness is used: any solver of the same three defin
 REQUIRED_CLASSES = {"all": ["blocks=3", "params=2", "repr=sympy", "repr=sparse", "selection=mask", "selection=full"]}
 
 
+FORMS = ("indices", "indices", "indices", "blocks", "blocks", "eigvecs")
+
+
 def strategy(tier):
     if tier == "thorough":
-        return problems(tier, hermitian=True, max_N=10, max_block_size=4)
-    return problems(tier, hermitian=True)
+        return problems(tier, hermitian=True, max_N=10, max_block_size=4, forms=FORMS)
+    return problems(tier, hermitian=True, forms=FORMS)
 
 
 def check_case(case, enforce_all=False):
